@@ -33,7 +33,7 @@ THEOREMS = [
     'Pyiga.Props.C01.storage_index_symmetric',
     'Pyiga.Props.C01.sym_index_injective', 'Pyiga.Props.C01.sym_index_range', 'Pyiga.Props.C01.sym_index_surjective',
     'Pyiga.Props.C01.entry_eq_full_sum', 'Pyiga.Props.C01.entry_zero_without_common_support',
-    'Pyiga.Props.C01.entry1_eq_full_sum',
+    'Pyiga.Props.C01.entry1_eq_full_sum', 'Pyiga.Props.C01.support_test_strictness_unobservable',
     'Pyiga.Props.C01.entry_indexing', 'Pyiga.Props.C01.assemble_vector_order',
 ]
 MODULES = ['Pyiga.Model.Index', 'Pyiga.Model.Layout', 'Pyiga.Model.Assembler', 'Pyiga.Proofs.Index',
